@@ -1011,6 +1011,8 @@ class Duration(AnyAtomicType):
     def make(cls, value: Any, **kwargs: Any) -> 'Duration':
         match value:
             case Duration():
+                if type(value) is not cls:
+                    return cls(value.months, value.seconds)  # a subtype is cast to xs:duration
                 return value
             case UntypedAtomic():
                 return cls.fromstring(value.value)
